@@ -74,6 +74,16 @@ func runC02_11(c *core.Ctx) {
 		k := 0
 		sol.AtExit(func(b *flow.Block, facts uint64) {
 			k++
+			// an explicit refusal – count 0 together with a named error value such as net.ErrClosed – tells the
+			// caller that nothing was accepted
+			if r := b.Return; len(r.Results) == 2 {
+				cv := flow.ConstOf(f.Info, r.Results[0])
+				eo := flow.ObjOf(f.Info, r.Results[1])
+				if cv != nil && cv.ExactString() == "0" && eo != nil && !flow.IsNil(f.Info, r.Results[1]) && isErrorType(eo.Type()) && eo.Pkg() != nil && eo.Parent() == eo.Pkg().Scope() {
+					c.Ok(f.Name, "return #"+itoa(k)+" after the payload was handed on", r.Pos(), "explicit refusal: 0, "+exprStr(r.Results[1]))
+					return
+				}
+			}
 			c.Check(facts&1 != 0, f.Name, "return #"+itoa(k)+" after the payload was handed on", b.Return.Pos(),
 				"payload written, sent or buffered before this return",
 				"a return is reachable on which the payload "+dataObj.Name()+" was neither written nor appended to the outbound buffer although the caller is told it was accepted: those bytes are dropped from the stream")
